@@ -100,6 +100,9 @@ func init() {
 		case "cell":
 			r := tCell(rest)
 			return fmt.Sprintf("%s %s %d", r.lint, r.interp, r.runs)
+		case "cellm":
+			r := tCell(rest)
+			return fmt.Sprintf("%s %s %d | %s", r.lint, r.interp, r.runs, r.interpMsg)
 		case "show":
 			r := tCell(rest)
 			return fmt.Sprintf("%s %s | lint: %s | interp: %s | program: %s", r.lint, r.interp, r.lintMsg, r.interpMsg, r.src)
@@ -344,8 +347,11 @@ func tIDArg(fn string, pos int, mask int) string {
 			return "beresp"
 		}
 		return "resp"
-	case fn == "std.collect" || fn == "std.count":
+	case fn == "std.collect":
 		return "req.http.X-Verif"
+	case fn == "std.count":
+		// a header collection
+		return "req.headers"
 	case strings.HasPrefix(fn, "ratelimit.penaltybox"):
 		return "pb_one"
 	case fn == "ratelimit.ratecounter_increment":
@@ -373,6 +379,11 @@ var tDeclarable = map[string]bool{"INTEGER": true, "FLOAT": true, "STRING": true
 	"TIME": true, "IP": true, "BACKEND": true}
 
 func tFuncBody(name string, sigIdx int, mask int) (decls, body string, err error) {
+	return tFuncBodyID(name, sigIdx, mask, "")
+}
+
+// idArg != "": the FIRST ID-typed argument is that identifier (cells A: the argument drawn from every object family)
+func tFuncBodyID(name string, sigIdx int, mask int, idArg string) (decls, body string, err error) {
 	c := lctx.New()
 	c.Scope(0x111111111)
 	fs := c.VerifFunctions()
@@ -399,6 +410,12 @@ func tFuncBody(name string, sigIdx int, mask int) (decls, body string, err error
 		}
 		for i, t := range f.Arguments[sigIdx] {
 			if t == types.IDType {
+				if idArg != "" && idArg != "@" {
+					args = append(args, idArg)
+					idArg = ""
+					continue
+				}
+				idArg = ""
 				args = append(args, tIDArg(name, i, mask))
 				continue
 			}
@@ -415,6 +432,21 @@ func tFuncBody(name string, sigIdx int, mask int) (decls, body string, err error
 			v, ok := tValueOf(t.String())
 			if !ok {
 				return "", "", fmt.Errorf("no value of type %s", t)
+			}
+			if (name == "digest.rsa_verify" || name == "digest.ecdsa_verify") && t == types.StringType {
+				// public key (PEM), payload, signature over the SHA-256 of the payload in the base64 flavour of the signature
+				v = tDigestArg(name, i, len(f.Arguments[sigIdx]))
+			}
+			if (name == "ratelimit.check_rate" || name == "ratelimit.check_rates") && t == types.IntegerType {
+				// delta, window, limit inside the ranges the function accepts
+				v = []string{"1", "10", "100", "1"}[(i+2)%4]
+			}
+			if strings.HasPrefix(name, "crypto.") && t == types.StringType {
+				// key, iv, text: 16 bytes each (hex; the text of the _base64 variants in base64)
+				v = `"00112233445566778899aabbccddeeff"`
+				if i == 5 && strings.HasSuffix(name, "_base64") {
+					v = `"ABEiM0RVZneImaq7zN3u/w=="`
+				}
 			}
 			args = append(args, v)
 		}
@@ -584,6 +616,15 @@ func tCellOpt(spec string, execute bool) (res tResult) {
 		src, err = tOpProgram(f[1], f[2], f[3], f[4])
 	case f[0] == "L" && len(f) == 6:
 		src, err = tOpProgramL(f[1], f[2], f[3], f[4], f[5])
+	case f[0] == "A" && len(f) == 5:
+		// A,<function or stmt:add>,<sig>,<identifier>,<mask>
+		idx, _ := strconv.Atoi(f[2])
+		mask, _ = strconv.Atoi(f[4])
+		if f[1] == "stmt:add" {
+			decls, body = "", "add "+f[3]+" = \"v\";\n"
+		} else {
+			decls, body, err = tFuncBodyID(f[1], idx, mask, f[3])
+		}
 	case f[0] == "X" && len(f) == 4:
 		src, err = tVariantProgram(f[1], f[2], f[3])
 	case f[0] == "C" && len(f) == 5:
